@@ -642,3 +642,29 @@ def family_cross_market(tier, seed):
                     out.append({"id": "xm%d" % k, "cfg": {}, "shared_file": True, "markets": markets,
                                 "strategies": [{"name": "A", "max_live_trade_count": 1000, "markets": [0], "script": script}]})
     return out
+
+
+def family_repeated_cancel(tier, seed):
+    """an order is reduced more than once and finally cancelled or replaced, each request on a later update: every response
+    of the simulated exchange carries the time of its own execution"""
+    out = []
+    k = 0
+    for side in ("BACK", "LAY"):
+        for last in ("cancel", "replace", "cancel_part"):
+            for inplay in (False, True):
+                k += 1
+                price = 3.2 if side == "BACK" else 2.6
+                def up(pt):
+                    return {"pt": pt, "status": "OPEN", "version": 1, "inplay": inplay, "bet_delay": 1 if inplay else 0,
+                            "rstat": {"11": ["ACTIVE", 50.0, None], "12": ["ACTIVE", 50.0, None]},
+                            "books": {"11": _bk([[2.8, 10.0]], [[3.0, 10.0]], []), "12": _bk([[5.0, 10.0]], [[5.5, 10.0]], [])}}
+                ts = [0, 2000, 5000, 7000, 10000, 12000, 15000, 17000, 20000]
+                a3 = {"cancel": {"op": "cancel", "o": "q1"}, "cancel_part": {"op": "cancel", "o": "q1", "reduction": 1.0},
+                      "replace": {"op": "replace", "o": "q1", "price": 3.4 if side == "BACK" else 2.4}}[last]
+                script = {"1.100000001|0|book": [{"op": "place", "o": "q1", "t": "tq1", "sel": 11, "side": side, "price": price, "size": 10.0}],
+                          "1.100000001|5000|book": [{"op": "cancel", "o": "q1", "reduction": 2.0}],
+                          "1.100000001|10000|book": [{"op": "cancel", "o": "q1", "reduction": 3.0}],
+                          "1.100000001|15000|book": [a3]}
+                m = {"id": "1.100000001", "event_id": "30000001", "market_type": "WIN", "winners": 1, "bsp": True, "persistence": True, "runners": [11, 12], "updates": [up(t) for t in ts]}
+                out.append({"id": "rc%d" % k, "cfg": {}, "markets": [m], "strategies": [{"name": "A", "max_live_trade_count": 1000, "script": script}]})
+    return out
